@@ -12,15 +12,28 @@
      with policy weight `weigh key value`;
    * the run-local weighted size is the sum of the policy weights of the admitted infos;
    * value entries of the map have distinct identities and key objects, and list nodes hold
-     the key object of the entry that owns them.
+     the key object of the entry that owns them;
+   * a dirty entry of the map awaits a queued `upsert`.
 
   With both queues empty this gives `entry_count = |map|`, `weighted_size = Σ weights =
-  Σ weigh key value`, and as many live key / value objects as entries.
+  Σ weigh key value`, and as many live key / value objects as entries (`quiescent`,
+  `map_ids_nodup`, `map_length_le`).  With nothing pending, every iteration of the LRU eviction
+  loop evicts the head of the access-order list, so after `Inner::sync` the weighted size is
+  within the capacity unless a full batch has been evicted (`syncRun_weight`).
+
+  Layout: `Same` (steps that change nothing the invariant reads), `CInv` and its general
+  preservation lemma `CInv.step`, the three primitives `handle_remove` / `handle_admit` /
+  update (`handleRemove_spec`, `handleAdmit_cinv`, `applyUpdate_cinv`), then one `_g` lemma per
+  function of the write and eviction paths over `G` (`Safe ∧ MapOK ∧ CInv`, reusing the
+  `_safe` lemmas of `SyncNodes.lean`), the maintenance run (`syncLoop_g`, `syncRun_ctop`),
+  the public API over `TInv` (`step_t`), and at the end the corrected capacity oracle
+  `Spec.boundC04Sync'` / `Spec.oracleC04'` with its proof `boundC04SyncGo_run`.
 -/
 import MiniMoka.Lemmas.SyncNodes
 import MiniMoka.Lemmas.SyncQueues
 import MiniMoka.Lemmas.Sort
 import MiniMoka.Lemmas.SketchLaws
+import MiniMoka.Spec.Oracles
 
 namespace MiniMoka
 namespace Sync
@@ -97,24 +110,32 @@ structure Same (s s' : SState) : Prop where
   key : ∀ j, (getInfo s' j).key = (getInfo s j).key
   weight : ∀ j, (getInfo s' j).weight = (getInfo s j).weight
   adm : ∀ j, (getInfo s' j).admitted = (getInfo s j).admitted
+  dirty : ∀ j, (getInfo s' j).dirty = true → (getInfo s j).dirty = true
   prob : s'.prob.Perm s.prob
   wo : s'.wo.Perm s.wo
   cws : s'.cws = s.cws
 
 theorem Same.refl (s : SState) : Same s s :=
-  ⟨rfl, rfl, fun _ => rfl, fun _ => rfl, fun _ => rfl, List.Perm.refl _, List.Perm.refl _, rfl⟩
+  ⟨rfl, rfl, fun _ => rfl, fun _ => rfl, fun _ => rfl, fun _ h => h, List.Perm.refl _,
+   List.Perm.refl _, rfl⟩
 
 theorem Same.trans {a b c : SState} (h1 : Same a b) (h2 : Same b c) : Same a c :=
   ⟨h2.map.trans h1.map, h2.nextId.trans h1.nextId, fun j => (h2.key j).trans (h1.key j),
    fun j => (h2.weight j).trans (h1.weight j), fun j => (h2.adm j).trans (h1.adm j),
+   fun j h => h1.dirty j (h2.dirty j h),
    h2.prob.trans h1.prob, h2.wo.trans h1.wo, h2.cws.trans h1.cws⟩
+
+theorem dirty_false_of {a b : Bool} (h : a = true → b = true) (hb : b = false) : a = false := by
+  cases a with
+  | false => rfl
+  | true => rw [h rfl] at hb; cases hb
 
 theorem same_of_eq {s s' : SState} (hm : s'.map = s.map) (hi : s'.infos = s.infos)
     (hp : s'.prob = s.prob) (hw : s'.wo = s.wo) (hc : s'.cws = s.cws)
     (hn : s'.nextId = s.nextId) : Same s s' := by
   have hg : ∀ j, getInfo s' j = getInfo s j := getInfo_congr hi
   exact ⟨hm, hn, fun j => by rw [hg], fun j => by rw [hg], fun j => by rw [hg],
-    by rw [hp], by rw [hw], hc⟩
+    fun j h => by rw [hg] at h; exact h, by rw [hp], by rw [hw], hc⟩
 
 theorem same_fail (s : SState) (f : Fault) : Same s (s.fail f) := by
   unfold SState.fail; split
@@ -122,18 +143,27 @@ theorem same_fail (s : SState) (f : Fault) : Same s (s.fail f) := by
   · exact same_of_eq rfl rfl rfl rfl rfl rfl
 
 theorem same_withInfo (s : SState) (i : Nat) (f : Info → Info)
-    (hf : ∀ x, (f x).key = x.key ∧ (f x).weight = x.weight ∧ (f x).admitted = x.admitted := by
-      intro x; exact ⟨rfl, rfl, rfl⟩) :
+    (hf : ∀ x, (f x).key = x.key ∧ (f x).weight = x.weight ∧ (f x).admitted = x.admitted ∧
+      ((f x).dirty = true → x.dirty = true) := by
+      intro x; exact ⟨rfl, rfl, rfl, id⟩) :
     Same s (withInfo s i f) := by
-  refine ⟨rfl, rfl, ?_, ?_, ?_, List.Perm.refl _, List.Perm.refl _, rfl⟩ <;> intro j <;>
-    rw [getInfo_withInfo] <;> by_cases h : i = j <;> simp [h, hf]
+  refine ⟨rfl, rfl, ?_, ?_, ?_, ?_, List.Perm.refl _, List.Perm.refl _, rfl⟩ <;> intro j <;>
+    rw [getInfo_withInfo] <;> by_cases h : i = j
+  · rw [if_pos h, ← h]; exact (hf _).1
+  · rw [if_neg h]
+  · rw [if_pos h, ← h]; exact (hf _).2.1
+  · rw [if_neg h]
+  · rw [if_pos h, ← h]; exact (hf _).2.2.1
+  · rw [if_neg h]
+  · rw [if_pos h, ← h]; exact (hf _).2.2.2
+  · rw [if_neg h]; exact id
 
 theorem moveNodeToBackAo_same (s : SState) (id : Nat) : Same s (moveNodeToBackAo s id) := by
   unfold moveNodeToBackAo
   cases h : findAo s.prob id with
   | none => exact same_fail s _
   | some n =>
-    exact ⟨rfl, rfl, fun _ => rfl, fun _ => rfl, fun _ => rfl, perm_moveToBackAo h,
+    exact ⟨rfl, rfl, fun _ => rfl, fun _ => rfl, fun _ => rfl, fun _ h => h, perm_moveToBackAo h,
       List.Perm.refl _, rfl⟩
 
 theorem moveNodeToBackWo_same (s : SState) (id : Nat) : Same s (moveNodeToBackWo s id) := by
@@ -141,7 +171,7 @@ theorem moveNodeToBackWo_same (s : SState) (id : Nat) : Same s (moveNodeToBackWo
   cases h : findWo s.wo id with
   | none => exact same_fail s _
   | some n =>
-    exact ⟨rfl, rfl, fun _ => rfl, fun _ => rfl, fun _ => rfl, List.Perm.refl _,
+    exact ⟨rfl, rfl, fun _ => rfl, fun _ => rfl, fun _ => rfl, fun _ h => h, List.Perm.refl _,
       perm_moveToBackWo h, rfl⟩
 
 theorem moveToBackAoE_same (s : SState) (i : Nat) : Same s (moveToBackAoE s i) := by
@@ -244,6 +274,8 @@ structure CInv (p : Params) (s : SState) (Q : List WOp) : Prop where
   probSlot : ∀ n, n ∈ s.prob → ∀ k c, AL.get? s.map k = some c → c.info = n.info →
     n.kobj = c.slot
   woSlot : ∀ n, n ∈ s.wo → ∀ k c, AL.get? s.map k = some c → c.info = n.info → n.kobj = c.slot
+  dirtyQ : ∀ k ve, AL.get? s.map k = some ve → (getInfo s ve.info).dirty = true →
+    ∃ k' h v o w, WOp.upsert k' h v o w ∈ Q ∧ v.info = ve.info
   wsum : s.cws = wsumOf s
 
 /-- The general preservation argument for a step that leaves the logical queue alone: the
@@ -261,6 +293,8 @@ theorem CInv.step {p : Params} {s s' : SState} {Q : List WOp} (h : CInv p s Q)
     (hcurE : ∀ k ve, AL.get? s'.map k = some ve →
       ((getInfo s ve.info).admitted = true ∧ (getInfo s ve.info).weight = p.weigh k ve.val) →
       ((getInfo s' ve.info).admitted = true ∧ (getInfo s' ve.info).weight = p.weigh k ve.val))
+    (hdirty : ∀ k ve, AL.get? s'.map k = some ve → (getInfo s' ve.info).dirty = true →
+      (getInfo s ve.info).dirty = true)
     (hws : s'.cws = wsumOf s') : CInv p s' Q where
   mapKey k ve hk := by rw [hkey]; exact h.mapKey k ve (hmap k ve hk)
   mapId k ve hk :=
@@ -297,6 +331,7 @@ theorem CInv.step {p : Params} {s s' : SState} {Q : List WOp} (h : CInv p s Q)
     rcases hwo n hn with h1 | h1
     · exact h.woSlot n h1 k c (hmap k c hc) hi
     · exact h1 k c (hmap k c hc) hi
+  dirtyQ k ve hk hd := h.dirtyQ k ve (hmap k ve hk) (hdirty k ve hk hd)
   wsum := hws
 
 theorem Cur.same {s s' : SState} (hm : s'.map = s.map) {i : Nat} (h : Cur s i) : Cur s' i := by
@@ -308,7 +343,7 @@ theorem CInv.same {p : Params} {s s' : SState} {Q : List WOp} (h : CInv p s Q)
   refine h.step (fun k ve hk => by rw [hs.map] at hk; exact hk) hs.key
     (by rw [hs.nextId]; exact Nat.le_refl _)
     (fun m hm => Or.inl (hs.prob.mem_iff.mp hm)) (fun m hm => Or.inl (hs.wo.mem_iff.mp hm))
-    ?_ ?_ ?_
+    ?_ ?_ (fun _ ve _ hd => hs.dirty ve.info hd) ?_
   · intro n hn
     have hn' := hs.prob.mem_iff.mp hn
     by_cases hc : Cur s n.info
@@ -324,7 +359,8 @@ the right weight. -/
 theorem CInv.dropUpsert {p : Params} {s : SState} {Q : List WOp} {key : Nat} {hash : UInt64}
     {ve : VE} {oldW newW : Nat} (h : CInv p s (WOp.upsert key hash ve oldW newW :: Q))
     (hadm : AL.get? s.map key = some ve →
-      (getInfo s ve.info).admitted = true ∧ (getInfo s ve.info).weight = p.weigh key ve.val) :
+      (getInfo s ve.info).admitted = true ∧ (getInfo s ve.info).weight = p.weigh key ve.val)
+    (hnd : (getInfo s ve.info).dirty = false) :
     CInv p s Q where
   mapKey := h.mapKey
   mapId := h.mapId
@@ -351,6 +387,13 @@ theorem CInv.dropUpsert {p : Params} {s : SState} {Q : List WOp} {key : Nat} {ha
   upSlot k hh v o w hq := h.upSlot k hh v o w (List.mem_cons_of_mem _ hq)
   probSlot := h.probSlot
   woSlot := h.woSlot
+  dirtyQ k c hk hd := by
+    obtain ⟨k', hh, v, o, w, hq, hi⟩ := h.dirtyQ k c hk hd
+    rcases List.mem_cons.mp hq with e | hq
+    · injection e with _ _ e3
+      subst e3
+      rw [← hi, hnd] at hd; cases hd
+    · exact ⟨k', hh, v, o, w, hq, hi⟩
   wsum := h.wsum
 
 /-- The queue loses a `remove` whose info owns no node any more. -/
@@ -382,6 +425,11 @@ theorem CInv.dropRemove {p : Params} {s : SState} {Q : List WOp} {key : Nat} {ve
   upSlot k hh v o w hq := h.upSlot k hh v o w (List.mem_cons_of_mem _ hq)
   probSlot := h.probSlot
   woSlot := h.woSlot
+  dirtyQ k c hk hd := by
+    obtain ⟨k', hh, v, o, w, hq, hi⟩ := h.dirtyQ k c hk hd
+    rcases List.mem_cons.mp hq with e | hq
+    · cases e
+    · exact ⟨k', hh, v, o, w, hq, hi⟩
   wsum := h.wsum
 
 /-! ### record shapes through which `getInfo` looks -/
@@ -430,28 +478,34 @@ theorem unlinkWo_quiet (s : SState) (i : Nat) :
     (unlinkWo s i).prob = s.prob ∧ (unlinkWo s i).cws = s.cws ∧
     (∀ j, (getInfo (unlinkWo s i) j).key = (getInfo s j).key ∧
       (getInfo (unlinkWo s i) j).weight = (getInfo s j).weight ∧
-      (getInfo (unlinkWo s i) j).admitted = (getInfo s j).admitted) ∧
+      (getInfo (unlinkWo s i) j).admitted = (getInfo s j).admitted ∧
+      (getInfo (unlinkWo s i) j).dirty = (getInfo s j).dirty) ∧
     (∀ m, m ∈ (unlinkWo s i).wo → m ∈ s.wo) := by
   unfold unlinkWo
   split
-  · exact ⟨rfl, rfl, rfl, rfl, fun _ => ⟨rfl, rfl, rfl⟩, fun _ h => h⟩
+  · exact ⟨rfl, rfl, rfl, rfl, fun _ => ⟨rfl, rfl, rfl, rfl⟩, fun _ h => h⟩
   · rename_i id _
     dsimp only
     have hg : ∀ j, (getInfo (withInfo s i fun i => { i with wo := none }) j).key = (getInfo s j).key ∧
         (getInfo (withInfo s i fun i => { i with wo := none }) j).weight = (getInfo s j).weight ∧
         (getInfo (withInfo s i fun i => { i with wo := none }) j).admitted
-          = (getInfo s j).admitted := by
+          = (getInfo s j).admitted ∧
+        (getInfo (withInfo s i fun i => { i with wo := none }) j).dirty
+          = (getInfo s j).dirty := by
       intro j
       rw [getInfo_withInfo]
       by_cases e : i = j
-      · rw [if_pos e, e]; exact ⟨rfl, rfl, rfl⟩
-      · rw [if_neg e]; exact ⟨rfl, rfl, rfl⟩
+      · rw [if_pos e, e]; exact ⟨rfl, rfl, rfl, rfl⟩
+      · rw [if_neg e]; exact ⟨rfl, rfl, rfl, rfl⟩
     split
     · exact ⟨rfl, rfl, rfl, rfl, hg, fun m hm => mem_eraseWo_sub hm⟩
     · have hs := same_fail (withInfo s i fun i => { i with wo := none }) Fault.useAfterFree
       refine ⟨hs.map, hs.nextId, ?_, hs.cws, fun j => ?_, fun m hm => hs.wo.mem_iff.mp hm⟩
       · unfold SState.fail; split <;> rfl
-      · rw [hs.key, hs.weight, hs.adm]; exact hg j
+      · have hgi : ∀ j, getInfo ((withInfo s i fun i => { i with wo := none }).fail
+            Fault.useAfterFree) j = getInfo (withInfo s i fun i => { i with wo := none }) j := by
+          intro j; unfold SState.fail; split <;> rfl
+        rw [hgi]; exact hg j
 
 /-- What the invariant needs to know about `handle_remove`. -/
 theorem handleRemove_spec {s : SState} (h : Safe s) (ve : VE) :
@@ -462,7 +516,11 @@ theorem handleRemove_spec {s : SState} (h : Safe s) (ve : VE) :
     (getInfo (handleRemove s ve) ve.info).admitted = false ∧
     (∀ m, m ∈ (handleRemove s ve).prob → m ∈ s.prob) ∧
     (∀ m, m ∈ (handleRemove s ve).wo → m ∈ s.wo) ∧
-    (s.cws = wsumOf s → (handleRemove s ve).cws = wsumOf (handleRemove s ve)) := by
+    (s.cws = wsumOf s → (handleRemove s ve).cws = wsumOf (handleRemove s ve)) ∧
+    (∀ j, (getInfo (handleRemove s ve) j).dirty = (getInfo s j).dirty) ∧
+    ((getInfo s ve.info).admitted = true →
+      (handleRemove s ve).cws = s.cws - (getInfo s ve.info).weight ∧
+      (getInfo s ve.info).weight ≤ wsumOf s) := by
   unfold handleRemove
   dsimp only
   by_cases hadm : (getInfo s ve.info).admitted = true
@@ -514,10 +572,10 @@ theorem handleRemove_spec {s : SState} (h : Safe s) (ve : VE) :
       intro j; rw [(q5 j).2.1, hTg]; by_cases e : ve.info = j
       · rw [if_pos e, ← e]
       · rw [if_neg e]
-    refine ⟨q1.trans hTmap, q2.trans hTnext, hkey, hweight, ?_, ?_, ?_, ?_, ?_⟩
+    refine ⟨q1.trans hTmap, q2.trans hTnext, hkey, hweight, ?_, ?_, ?_, ?_, ?_, ?_, ?_⟩
     · intro j hj
-      rw [(q5 j).2.2, hTg, if_neg (fun e => hj e.symm)]
-    · rw [(q5 _).2.2, hTg, if_pos rfl]
+      rw [(q5 j).2.2.1, hTg, if_neg (fun e => hj e.symm)]
+    · rw [(q5 _).2.2.1, hTg, if_pos rfl]
     · intro m hm
       rw [q3, hTprob] at hm
       exact mem_eraseAo_sub hm
@@ -536,6 +594,14 @@ theorem handleRemove_spec {s : SState} (h : Safe s) (ve : VE) :
       unfold wsumOf
       rw [sum_split h.toNodesCore hn (fun j => (getInfo s j).weight), hninfo]
       omega
+    · intro j; rw [(q5 j).2.2.2, hTg]; by_cases e : ve.info = j
+      · rw [if_pos e, ← e]
+      · rw [if_neg e]
+    · intro _
+      refine ⟨by rw [q4, hTcws], ?_⟩
+      unfold wsumOf
+      rw [sum_split h.toNodesCore hn (fun j => (getInfo s j).weight), hninfo]
+      exact Nat.le_add_right _ _
   · rw [if_neg hadm]
     have hna : (getInfo s ve.info).admitted = false := by
       cases hx : (getInfo s ve.info).admitted with
@@ -544,11 +610,17 @@ theorem handleRemove_spec {s : SState} (h : Safe s) (ve : VE) :
     have hs : Same s (withInfo s ve.info fun i => { i with ao := none, wo := none }) :=
       same_withInfo _ _ _
     refine ⟨hs.map, hs.nextId, hs.key, hs.weight, fun j _ => hs.adm j, ?_,
-      fun m hm => hs.prob.mem_iff.mp hm, fun m hm => hs.wo.mem_iff.mp hm, ?_⟩
+      fun m hm => hs.prob.mem_iff.mp hm, fun m hm => hs.wo.mem_iff.mp hm, ?_, ?_,
+      fun hx => absurd hx hadm⟩
     · rw [hs.adm]; exact hna
     · intro hws
       rw [hs.cws, hws]
       exact (wsumOf_congr hs.prob (fun n _ => hs.weight n.info)).symm
+    · intro j
+      rw [getInfo_withInfo]
+      by_cases e : ve.info = j
+      · rw [if_pos e, ← e]
+      · rw [if_neg e]
 
 /-! ### the good states of a maintenance run -/
 
@@ -574,7 +646,7 @@ theorem CInv.eraseNotAdm {p : Params} {s : SState} {Q : List WOp} (h : CInv p s 
     · simp [e] at hc
     · simpa [e] using hc
   refine h.step hsub (fun _ => rfl) (Nat.le_refl _) (fun m hm => Or.inl hm)
-    (fun m hm => Or.inl hm) ?_ (fun k' c _ hx => hx) h.wsum
+    (fun m hm => Or.inl hm) ?_ (fun k' c _ hx => hx) (fun _ _ _ hd => hd) h.wsum
   intro n hn
   by_cases hc : Cur s n.info
   · obtain ⟨k', c, hc1, hc2⟩ := hc
@@ -598,11 +670,11 @@ theorem handleRemove_cinv {p : Params} {s : SState} {Q : List WOp} (h : CInv p s
     (hdead : ∀ k c, AL.get? m0 k = some c → c.info ≠ ve.info) :
     CInv p (handleRemove { s with map := m0 } ve) Q := by
   have hs0 : Safe { s with map := m0 } := hs.of_eq rfl rfl rfl (Nat.le_refl _) rfl rfl
-  obtain ⟨r1, r2, r3, r4, r5, r6, r7, r8, r9⟩ := handleRemove_spec hs0 ve
+  obtain ⟨r1, r2, r3, r4, r5, r6, r7, r8, r9, r10, _⟩ := handleRemove_spec hs0 ve
   have hs1 := (handleRemove_safe hs0 ve).1
   refine h.step (fun k c hc => by rw [r1] at hc; exact hsub k c hc) r3
     (by rw [r2]; exact Nat.le_refl _) (fun m hm => Or.inl (r7 m hm)) (fun m hm => Or.inl (r8 m hm))
-    ?_ ?_ (r9 h.wsum)
+    ?_ ?_ (fun _ c _ hd => by rw [r10] at hd; exact hd) (r9 h.wsum)
   · intro n hn
     have hne : n.info ≠ ve.info := by
       intro e
@@ -629,6 +701,7 @@ theorem handleAdmit_spec {p : Params} (hd8 : p.q.d8 = false) (s : SState) (key :
     (getInfo (handleAdmit p s key hash ve w) ve.info).key = (getInfo s ve.info).key ∧
     (getInfo (handleAdmit p s key hash ve w) ve.info).weight = w ∧
     (getInfo (handleAdmit p s key hash ve w) ve.info).admitted = true ∧
+    (getInfo (handleAdmit p s key hash ve w) ve.info).dirty = (getInfo s ve.info).dirty ∧
     (∃ node : AoNode, node.key = key ∧ node.info = ve.info ∧ node.kobj = ve.slot ∧
       (handleAdmit p s key hash ve w).prob = s.prob ++ [node]) ∧
     (∀ m, m ∈ (handleAdmit p s key hash ve w).wo → m ∈ s.wo ∨ (m.info = ve.info ∧ m.kobj = ve.slot)) ∧
@@ -636,12 +709,13 @@ theorem handleAdmit_spec {p : Params} (hd8 : p.q.d8 = false) (s : SState) (key :
   simp only [handleAdmit, hd8, Bool.false_eq_true, if_false]
   by_cases ht : p.ttl.isSome = true
   · simp only [if_pos ht]
-    refine ⟨rfl, ?_, ?_, ?_, ?_, ?_, ⟨_, rfl, rfl, rfl, rfl⟩, ?_, rfl⟩
+    refine ⟨rfl, ?_, ?_, ?_, ?_, ?_, ?_, ⟨_, rfl, rfl, rfl, rfl⟩, ?_, rfl⟩
     · show s.nextId ≤ s.nextId + 1 + 1
       omega
     · intro j hj
       have hj' : ¬ ve.info = j := fun e => hj e.symm
       simp only [getInfo_withInfo, getInfo_push_ao, getInfo_push_wo, getInfo_addCounters, if_neg hj']
+    · simp only [getInfo_withInfo, getInfo_push_ao, getInfo_push_wo, getInfo_addCounters, if_true]
     · simp only [getInfo_withInfo, getInfo_push_ao, getInfo_push_wo, getInfo_addCounters, if_true]
     · simp only [getInfo_withInfo, getInfo_push_ao, getInfo_push_wo, getInfo_addCounters, if_true]
     · simp only [getInfo_withInfo, getInfo_push_ao, getInfo_push_wo, getInfo_addCounters, if_true]
@@ -653,12 +727,13 @@ theorem handleAdmit_spec {p : Params} (hd8 : p.q.d8 = false) (s : SState) (key :
       · simp only [List.mem_singleton] at h1
         rw [h1]; exact Or.inr ⟨rfl, rfl⟩
   · simp only [if_neg ht]
-    refine ⟨rfl, ?_, ?_, ?_, ?_, ?_, ⟨_, rfl, rfl, rfl, rfl⟩, ?_, rfl⟩
+    refine ⟨rfl, ?_, ?_, ?_, ?_, ?_, ?_, ⟨_, rfl, rfl, rfl, rfl⟩, ?_, rfl⟩
     · show s.nextId ≤ s.nextId + 1
       omega
     · intro j hj
       have hj' : ¬ ve.info = j := fun e => hj e.symm
       simp only [getInfo_withInfo, getInfo_push_ao, getInfo_addCounters, if_neg hj']
+    · simp only [getInfo_withInfo, getInfo_push_ao, getInfo_addCounters, if_true]
     · simp only [getInfo_withInfo, getInfo_push_ao, getInfo_addCounters, if_true]
     · simp only [getInfo_withInfo, getInfo_push_ao, getInfo_addCounters, if_true]
     · simp only [getInfo_withInfo, getInfo_push_ao, getInfo_addCounters, if_true]
@@ -673,11 +748,12 @@ theorem handleAdmit_cinv {p : Params} (hq : NoQuirks p) {s : SState} {Q : List W
     CInv p (handleAdmit p s key hash ve w) Q ∧
       (handleAdmit p s key hash ve w).map = s.map ∧
       (getInfo (handleAdmit p s key hash ve w) ve.info).admitted = true ∧
-      (getInfo (handleAdmit p s key hash ve w) ve.info).weight = w := by
+      (getInfo (handleAdmit p s key hash ve w) ve.info).weight = w ∧
+      (getInfo (handleAdmit p s key hash ve w) ve.info).dirty = (getInfo s ve.info).dirty := by
   have hd8 : p.q.d8 = false := by rw [hq]
-  obtain ⟨r1, r2, r3, r4, r5, r6, ⟨node, n1, n2, n3, n4⟩, r8, r9⟩ :=
+  obtain ⟨r1, r2, r3, r4, r5, r6, r7, ⟨node, n1, n2, n3, n4⟩, r8, r9⟩ :=
     handleAdmit_spec hd8 s key hash ve w
-  refine ⟨?_, r1, r6, r5⟩
+  refine ⟨?_, r1, r6, r5, r7⟩
   have hkeyi : (getInfo s ve.info).key = key := by rw [← hci]; exact h.mapKey key c hk
   have hown : ∀ k c', AL.get? s.map k = some c' → c'.info = ve.info → c' = c := by
     intro k c' hc' hi
@@ -688,7 +764,7 @@ theorem handleAdmit_cinv {p : Params} (hq : NoQuirks p) {s : SState} {Q : List W
     intro m hm e
     have := hs.probAdm hm
     rw [e, hna] at this; cases this
-  refine h.step (fun k c' hc' => by rw [r1] at hc'; exact hc') ?_ r2 ?_ ?_ ?_ ?_ ?_
+  refine h.step (fun k c' hc' => by rw [r1] at hc'; exact hc') ?_ r2 ?_ ?_ ?_ ?_ ?_ ?_
   · intro j
     by_cases e : j = ve.info
     · rw [e, r4]
@@ -723,6 +799,10 @@ theorem handleAdmit_cinv {p : Params} (hq : NoQuirks p) {s : SState} {Q : List W
       intro e
       rw [e, hna] at hx; cases hx.1
     rw [r3 _ this]; exact hx
+  · intro k c' _ hd
+    by_cases e : c'.info = ve.info
+    · rw [e, r7] at hd; rw [e]; exact hd
+    · rw [r3 _ e] at hd; exact hd
   · rw [r9, h.wsum]
     unfold wsumOf
     rw [n4, List.map_append, List.sum_append]
@@ -742,7 +822,9 @@ theorem applyUpdate_cinv {p : Params} (hq : NoQuirks p) {s : SState} {Q : List W
     CInv p (applyUpdate p s ve oldW nw) Q ∧
       (applyUpdate p s ve oldW nw).map = s.map ∧
       (getInfo (applyUpdate p s ve oldW nw) ve.info).admitted = true ∧
-      (getInfo (applyUpdate p s ve oldW nw) ve.info).weight = nw := by
+      (getInfo (applyUpdate p s ve oldW nw) ve.info).weight = nw ∧
+      ((getInfo (applyUpdate p s ve oldW nw) ve.info).dirty = true →
+        (getInfo s ve.info).dirty = true) := by
   have hd8 : p.q.d8 = false := by rw [hq]
   unfold applyUpdate
   simp only [hd8, Bool.false_eq_true, if_false]
@@ -767,7 +849,7 @@ theorem applyUpdate_cinv {p : Params} (hq : NoQuirks p) {s : SState} {Q : List W
   have hc : CInv p s3 Q := by
     refine h.step (fun k c hc => by rw [hm3] at hc; exact hc) ?_ (by rw [hn3]; exact Nat.le_refl _)
       (fun m hm => Or.inl (by rw [hp3] at hm; exact hm))
-      (fun m hm => Or.inl (by rw [hw3] at hm; exact hm)) ?_ ?_ ?_
+      (fun m hm => Or.inl (by rw [hw3] at hm; exact hm)) ?_ ?_ ?_ ?_
     · intro j
       by_cases e : j = ve.info
       · rw [e, hI]
@@ -784,6 +866,10 @@ theorem applyUpdate_cinv {p : Params} (hq : NoQuirks p) {s : SState} {Q : List W
         rw [e] at hx
         exact ⟨hx.1, hw k c hc e⟩
       · rw [hO _ e]; exact hx
+    · intro k c _ hd
+      by_cases e : c.info = ve.info
+      · rw [e, hI] at hd; rw [e]; exact hd
+      · rw [hO _ e] at hd; exact hd
     · obtain ⟨id, hao⟩ := hs.adm_ao hadm
       obtain ⟨n, hn, _, hninfo⟩ := hs.aoNode _ _ hao
       rw [hc3, h.wsum]
@@ -797,9 +883,12 @@ theorem applyUpdate_cinv {p : Params} (hq : NoQuirks p) {s : SState} {Q : List W
       omega
   have hsame : Same s3 (moveToBackWoE (moveToBackAoE s3 ve.info) ve.info) :=
     (moveToBackAoE_same _ _).trans (moveToBackWoE_same _ _)
-  refine ⟨hc.same hsame, hsame.map.trans hm3, ?_, ?_⟩
+  refine ⟨hc.same hsame, hsame.map.trans hm3, ?_, ?_, ?_⟩
   · rw [hsame.adm, hI]; exact hadm
   · rw [hsame.weight, hI]
+  · intro hd
+    have := hsame.dirty _ hd
+    rw [hI] at this; exact this
 
 /-! ### eviction of one entry -/
 
@@ -823,7 +912,9 @@ theorem evict_g {p : Params} {s : SState} {Q : List WOp} (h : G p s Q) {k : Nat}
     (∀ k' c, AL.get? s.map k' = some c → k' ≠ k →
       AL.get? (handleRemove { s with map := AL.erase s.map k } ve).map k' = some c) ∧
     (∀ j, (getInfo s j).admitted = false →
-      (getInfo (handleRemove { s with map := AL.erase s.map k } ve) j).admitted = false) := by
+      (getInfo (handleRemove { s with map := AL.erase s.map k } ve) j).admitted = false) ∧
+    (∀ j, (getInfo (handleRemove { s with map := AL.erase s.map k } ve) j).dirty
+      = (getInfo s j).dirty) := by
   have hs0 := safe_eraseMap h.safe k
   obtain ⟨hs1, _, hmono⟩ := handleRemove_safe hs0 ve
   have hf : Frame0 s (handleRemove { s with map := AL.erase s.map k } ve) :=
@@ -833,7 +924,7 @@ theorem evict_g {p : Params} {s : SState} {Q : List WOp} (h : G p s Q) {k : Nat}
       AL.get? (AL.erase s.map k) k' = some c := by
     intro k' c hc hne
     rw [AL.get?_erase k k' h.map.kn, if_neg (fun e => hne e.symm)]; exact hc
-  refine ⟨⟨hs1, h.map.frame0 hf, ?_⟩, ?_, hmono⟩
+  refine ⟨⟨hs1, h.map.frame0 hf, ?_⟩, ?_, hmono, (handleRemove_spec hs0 ve).2.2.2.2.2.2.2.2.2.1⟩
   · refine handleRemove_cinv h.inv h.safe (AL.erase s.map k) ve ?_ ?_ ?_
     · intro k' c hc
       rw [AL.get?_erase k k' h.map.kn] at hc
@@ -869,10 +960,13 @@ theorem removeVictims_g {p : Params} (hd7 : p.q.d7 = false) {Q : List WOp} :
         (∀ j, (getInfo s j).admitted = false →
           (getInfo (removeVictims p vs s sk).1 j).admitted = false) ∧
         (∀ k c, AL.get? s.map k = some c → (getInfo s c.info).admitted = false →
-          AL.get? (removeVictims p vs s sk).1.map k = some c) := by
+          AL.get? (removeVictims p vs s sk).1.map k = some c) ∧
+        (∀ j, (getInfo (removeVictims p vs s sk).1 j).dirty = (getInfo s j).dirty) := by
   intro vs
   induction vs with
-  | nil => intro s sk h _ hsk _ _; exact ⟨h, hsk, fun _ hj => hj, fun _ _ hc _ => hc⟩
+  | nil =>
+    intro s sk h _ hsk _ _
+    exact ⟨h, hsk, fun _ hj => hj, fun _ _ hc _ => hc, fun _ => rfl⟩
   | cons v rest ih =>
     intro s sk h hvs hsk hnd hdis
     simp only [List.map_cons, List.nodup_cons] at hnd
@@ -888,16 +982,16 @@ theorem removeVictims_g {p : Params} (hd7 : p.q.d7 = false) {Q : List WOp} :
       have hget := entryOfNode_get hve
       have h0 := safe_eraseMap h.safe v.key
       obtain ⟨_, hkeep, _⟩ := handleRemove_safe h0 ve
-      obtain ⟨g1, hmapk, hmono⟩ := evict_g h hget
+      obtain ⟨g1, hmapk, hmono, hdirt⟩ := evict_g h hget
       have hkeep' : ∀ m, m ∈ s.prob → m.id ≠ v.id →
           m ∈ (handleRemove { s with map := AL.erase s.map v.key } ve).prob := by
         intro m hm hmid
         refine hkeep m hm (fun e => hmid ?_)
         exact h.safe.info_inj hm hv (e.trans hinfo)
-      obtain ⟨i1, i2, i3, i4⟩ := ih _ sk g1 (fun r hr => hkeep' r (hrest r hr) (hne r hr))
+      obtain ⟨i1, i2, i3, i4, i5⟩ := ih _ sk g1 (fun r hr => hkeep' r (hrest r hr) (hne r hr))
         (fun m hm => hkeep' m (hsk m hm) (fun e => hdis v List.mem_cons_self m hm e.symm))
         hnd.2 (fun r hr m hm => hdis r (List.mem_cons_of_mem _ hr) m hm)
-      refine ⟨i1, i2, fun j hj => i3 j (hmono j hj), ?_⟩
+      refine ⟨i1, i2, fun j hj => i3 j (hmono j hj), ?_, fun j => (i5 j).trans (hdirt j)⟩
       intro k c hc hna
       refine i4 k c (hmapk k c hc ?_) (hmono _ hna)
       intro e
@@ -918,8 +1012,8 @@ theorem removeVictims_g {p : Params} (hd7 : p.q.d7 = false) {Q : List WOp} :
 theorem removeCandidate_cinv {p : Params} (hd7 : p.q.d7 = false) {s : SState} {Q : List WOp}
     {key : Nat} {hash : UInt64} {ve : VE} {o w : Nat}
     (h : G p s (WOp.upsert key hash ve o w :: Q))
-    (hna : (getInfo s ve.info).admitted = false) {c : VE}
-    (hc : AL.get? s.map key = some c) (hci : c.info = ve.info) :
+    (hna : (getInfo s ve.info).admitted = false) (hnd : (getInfo s ve.info).dirty = false)
+    {c : VE} (hc : AL.get? s.map key = some c) (hci : c.info = ve.info) :
     CInv p (removeCandidate p s key ve) Q := by
   unfold removeCandidate
   rw [hc]
@@ -927,13 +1021,13 @@ theorem removeCandidate_cinv {p : Params} (hd7 : p.q.d7 = false) {s : SState} {Q
   rw [hd7, Bool.false_or]
   by_cases e : (c.id == ve.id) = true
   · rw [if_pos e]
-    refine (h.inv.eraseNotAdm h.safe h.map hc (by rw [hci]; exact hna)).dropUpsert ?_
+    refine (h.inv.eraseNotAdm h.safe h.map hc (by rw [hci]; exact hna)).dropUpsert ?_ hnd
     intro hk
     exfalso
     have : AL.get? (AL.erase s.map key) key = none := AL.get?_erase_self key h.map.kn
     rw [this] at hk; cases hk
   · rw [if_neg e]
-    refine h.inv.dropUpsert ?_
+    refine h.inv.dropUpsert ?_ hnd
     intro hk
     exfalso
     rw [hc] at hk
@@ -943,9 +1037,9 @@ theorem removeCandidate_cinv {p : Params} (hd7 : p.q.d7 = false) {s : SState} {Q
 theorem admitOrReject_cinv {p : Params} (hq : NoQuirks p) {s : SState} {Q : List WOp}
     {key : Nat} {hash : UInt64} {ve : VE} {o w : Nat}
     (h : G p s (WOp.upsert key hash ve o w :: Q))
-    (hna : (getInfo s ve.info).admitted = false) {c : VE}
-    (hc : AL.get? s.map key = some c) (hci : c.info = ve.info) (hslot : c.slot = ve.slot)
-    (nw : Nat) (hnw : nw = p.weigh key c.val) :
+    (hna : (getInfo s ve.info).admitted = false) (hnd : (getInfo s ve.info).dirty = false)
+    {c : VE} (hc : AL.get? s.map key = some c) (hci : c.info = ve.info)
+    (hslot : c.slot = ve.slot) (nw : Nat) (hnw : nw = p.weigh key c.val) :
     CInv p (admitOrReject p s key hash ve nw) Q := by
   have hd7 : p.q.d7 = false := by rw [hq]
   unfold admitOrReject
@@ -960,18 +1054,18 @@ theorem admitOrReject_cinv {p : Params} (hq : NoQuirks p) {s : SState} {Q : List
       (by rw [e2]; exact h4) (by rw [e1]; exact h5) (by rw [e1, e2]; exact h6)
     generalize removeVictims p a.victims s a.skipped = r at hrv ⊢
     obtain ⟨s1, sk1⟩ := r
-    obtain ⟨g1, _, r3, r4⟩ := hrv
-    dsimp only at g1 r3 r4 ⊢
+    obtain ⟨g1, _, r3, r4, r5⟩ := hrv
+    dsimp only at g1 r3 r4 r5 ⊢
     have hc1 : AL.get? s1.map key = some c := r4 key c hc (by rw [hci]; exact hna)
-    obtain ⟨a1, a2, a3, a4⟩ :=
+    obtain ⟨a1, a2, a3, a4, a5⟩ :=
       handleAdmit_cinv hq g1.inv g1.safe key hash ve nw c hc1 hci hslot (r3 _ hna)
-    refine CInv.same (a1.dropUpsert ?_) (moveSkipped_same _ _)
+    refine CInv.same (a1.dropUpsert ?_ (by rw [a5, r5]; exact hnd)) (moveSkipped_same _ _)
     intro hk
     rw [a2, hc1] at hk
     have e := Option.some.inj hk
     subst e
     exact ⟨a3, by rw [a4]; exact hnw⟩
-  · exact (removeCandidate_cinv hd7 h hna hc hci).same (moveSkipped_same _ _)
+  · exact (removeCandidate_cinv hd7 h hna hnd hc hci).same (moveSkipped_same _ _)
 
 /-! ### `apply_writes` -/
 
@@ -995,19 +1089,21 @@ theorem handleUpsert_g {p : Params} (hq : NoQuirks p) {s : SState} {Q : List WOp
   have h1 : G p (withInfo s ve.info (fun i => { i with dirty := false }))
       (WOp.upsert key hash ve oldW newW :: Q) :=
     ⟨h.safe.withInfo _ _ rfl rfl rfl, ⟨h.map.kn, h.map.bound⟩,
-      h.inv.same (same_withInfo _ _ _)⟩
+      h.inv.same (same_withInfo _ _ _ (fun x => ⟨rfl, rfl, rfl, fun hx => by cases hx⟩))⟩
   have hnw1 : ∀ c, AL.get? (withInfo s ve.info (fun i => { i with dirty := false })).map key
       = some c → c.info = ve.info → nw = p.weigh key c.val := hnw
+  have hnd : (getInfo (withInfo s ve.info (fun i => { i with dirty := false })) ve.info).dirty
+      = false := by rw [getInfo_withInfo, if_pos rfl]
   clear hnw
-  generalize withInfo s ve.info (fun i => { i with dirty := false }) = s1 at h1 hnw1 ⊢
+  generalize withInfo s ve.info (fun i => { i with dirty := false }) = s1 at h1 hnw1 hnd ⊢
   have hup := h1.inv.upKey key hash ve oldW newW List.mem_cons_self
   by_cases c1 : (getInfo s1 ve.info).admitted = true
   · rw [if_pos c1]
-    obtain ⟨a1, a2, a3, a4⟩ := applyUpdate_cinv hq h1.inv h1.safe ve oldW nw c1 (by
+    obtain ⟨a1, a2, a3, a4, a5⟩ := applyUpdate_cinv hq h1.inv h1.safe ve oldW nw c1 (by
       intro k c hc hi
       have : k = key := by rw [← h1.inv.mapKey k c hc, hi]; exact hup.1
       subst this; exact hnw1 c hc hi)
-    refine a1.dropUpsert ?_
+    refine a1.dropUpsert ?_ (dirty_false_of a5 hnd)
     intro hk
     rw [a2] at hk
     exact ⟨a3, by rw [a4]; exact hnw1 ve hk rfl⟩
@@ -1018,7 +1114,7 @@ theorem handleUpsert_g {p : Params} (hq : NoQuirks p) {s : SState} {Q : List WOp
       | true => exact absurd hx c1
     by_cases c2 : (!p.q.d7 && !isCurrentEntry s1 key ve) = true
     · rw [if_pos c2]
-      refine h1.inv.dropUpsert ?_
+      refine h1.inv.dropUpsert ?_ hnd
       intro hk
       exfalso
       rw [hd7] at c2
@@ -1037,17 +1133,17 @@ theorem handleUpsert_g {p : Params} (hq : NoQuirks p) {s : SState} {Q : List WOp
       have hslot := h1.inv.upSlot key hash ve oldW newW List.mem_cons_self c hc hci
       by_cases c3 : hasEnoughCapacity p nw s1 = true
       · rw [if_pos c3]
-        obtain ⟨a1, a2, a3, a4⟩ :=
+        obtain ⟨a1, a2, a3, a4, a5⟩ :=
           handleAdmit_cinv hq h1.inv h1.safe key hash ve nw c hc hci hslot hna
-        refine a1.dropUpsert ?_
+        refine a1.dropUpsert ?_ (by rw [a5]; exact hnd)
         intro hk
         rw [a2] at hk
         exact ⟨a3, by rw [a4]; exact hnw1 ve hk rfl⟩
       · rw [if_neg c3]
         by_cases c4 : tooBig p nw = true
-        · rw [if_pos c4]; exact removeCandidate_cinv hd7 h1 hna hc hci
+        · rw [if_pos c4]; exact removeCandidate_cinv hd7 h1 hna hnd hc hci
         · rw [if_neg c4]
-          exact admitOrReject_cinv hq h1 hna hc hci hslot nw (hnw1 c hc hci)
+          exact admitOrReject_cinv hq h1 hna hnd hc hci hslot nw (hnw1 c hc hci)
 
 theorem applyWrite_g {p : Params} (hq : NoQuirks p) {s : SState} {Q : List WOp} (op : WOp)
     (h : G p s (op :: Q)) : G p (applyWrite p s op) Q := by
@@ -1372,7 +1468,8 @@ theorem CInv.put {p : Params} {s s' : SState} {Q : List WOp} (h : CInv p s Q)
     (hmap : s'.map = AL.put s.map k ve) (hnext : s.nextId ≤ s'.nextId)
     (hframe : ∀ j, j < s.nextId → (getInfo s' j).key = (getInfo s j).key ∧
       (getInfo s' j).weight = (getInfo s j).weight ∧
-      (getInfo s' j).admitted = (getInfo s j).admitted)
+      (getInfo s' j).admitted = (getInfo s j).admitted ∧
+      (j ≠ ve.info → (getInfo s' j).dirty = true → (getInfo s j).dirty = true))
     (hvkey : (getInfo s' ve.info).key = k)
     (hvb : ve.info < s'.nextId ∧ ve.id < s'.nextId ∧ ve.slot < s'.nextId ∧ s.nextId ≤ ve.id)
     (hslot : ∀ k' c, AL.get? s.map k' = some c → (c.slot = ve.slot ↔ k' = k))
@@ -1407,7 +1504,7 @@ theorem CInv.put {p : Params} {s s' : SState} {Q : List WOp} (h : CInv p s Q)
     · exact ⟨k', c, hget' k' c e h1, h2⟩
   have hmemQ : ∀ op, op ∈ Q → op ∈ Q ++ [WOp.upsert k hash ve o w] :=
     fun op hop => List.mem_append_left _ hop
-  refine ⟨?_, ?_, ?_, ?_, ?_, ?_, ?_, ?_, ?_, ?_, ?_, ?_, ?_, ?_⟩
+  refine ⟨?_, ?_, ?_, ?_, ?_, ?_, ?_, ?_, ?_, ?_, ?_, ?_, ?_, ?_, ?_⟩
   · -- mapKey
     intro k' c hk
     rcases hget k' c hk with ⟨e1, e2⟩ | ⟨_, h1⟩
@@ -1457,7 +1554,7 @@ theorem CInv.put {p : Params} {s s' : SState} {Q : List WOp} (h : CInv p s Q)
     · rcases h.cur k' c h1 with ⟨hh, oo, ww, h2⟩ | h2
       · exact Or.inl ⟨hh, oo, ww, hmemQ _ h2⟩
       · have hf := hframe _ (hm.bound k' c h1)
-        exact Or.inr (by rw [hf.2.2, hf.2.1]; exact h2)
+        exact Or.inr (by rw [hf.2.2.1, hf.2.1]; exact h2)
   · -- remDead
     intro k0 v0 hq
     rcases List.mem_append.mp hq with hq | hq
@@ -1515,6 +1612,15 @@ theorem CInv.put {p : Params} {s s' : SState} {Q : List WOp} (h : CInv p s Q)
       rw [e2, ← g3]
       exact h.woSlot n hn k c0 g1 (by rw [g2, ← e2]; exact hi)
     · exact h.woSlot n hn k' c h3 hi
+  · -- dirtyQ
+    intro k' c hk hd
+    rcases hget k' c hk with ⟨_, e2⟩ | ⟨hne, h3⟩
+    · exact ⟨k, hash, ve, o, w, List.mem_append_right _ List.mem_cons_self, by rw [e2]⟩
+    · by_cases e : c.info = ve.info
+      · exact ⟨k, hash, ve, o, w, List.mem_append_right _ List.mem_cons_self, e.symm⟩
+      · obtain ⟨k0, h0, v0, o0, w0, hq, hi⟩ :=
+          h.dirtyQ k' c h3 ((hframe _ (hm.bound k' c h3)).2.2.2 e hd)
+        exact ⟨k0, h0, v0, o0, w0, hmemQ _ hq, hi⟩
   · -- wsum
     rw [hcws, h.wsum]
     exact (wsumOf_congr (by rw [hprob]) (fun n hn => (hframe _ (node_info_lt hc hn)).2.1)).symm
@@ -1535,7 +1641,7 @@ theorem CInv.invalidate {p : Params} {s : SState} {Q : List WOp} (h : CInv p s Q
     fun op hop => List.mem_append_left _ hop
   have hcur : ∀ i, Cur { s with map := AL.erase s.map k } i → Cur s i :=
     fun i ⟨k', c, h1, h2⟩ => ⟨k', c, (hsub k' c h1).2, h2⟩
-  refine ⟨?_, ?_, ?_, ?_, h.nodeKey, ?_, ?_, ?_, ?_, ?_, ?_, ?_, ?_, h.wsum⟩
+  refine ⟨?_, ?_, ?_, ?_, h.nodeKey, ?_, ?_, ?_, ?_, ?_, ?_, ?_, ?_, ?_, h.wsum⟩
   · intro k' c hc; exact h.mapKey k' c (hsub k' c hc).2
   · intro k' c hc; exact h.mapId k' c (hsub k' c hc).2
   · intro k1 k2 c1 c2 h1 h2; exact h.idInj k1 k2 c1 c2 (hsub k1 c1 h1).2 (hsub k2 c2 h2).2
@@ -1582,6 +1688,9 @@ theorem CInv.invalidate {p : Params} {s : SState} {Q : List WOp} (h : CInv p s Q
     · simp only [List.mem_singleton] at hq; cases hq
   · intro n hn k' c hc; exact h.probSlot n hn k' c (hsub k' c hc).2
   · intro n hn k' c hc; exact h.woSlot n hn k' c (hsub k' c hc).2
+  · intro k' c hc hd
+    obtain ⟨k0, h0, v0, o0, w0, hq, hi⟩ := h.dirtyQ k' c (hsub k' c hc).2 hd
+    exact ⟨k0, h0, v0, o0, w0, hmemQ _ hq, hi⟩
 
 /-! ### the public API -/
 
@@ -1624,13 +1733,16 @@ theorem insert_t {p : Params} (hq : NoQuirks p) (hsm : SmallSketch p) {s : SStat
         show (getInfo (refreshInfo p s old.info s.now (p.weigh k v)) j).key = (getInfo s j).key ∧
           (getInfo (refreshInfo p s old.info s.now (p.weigh k v)) j).weight = (getInfo s j).weight ∧
           (getInfo (refreshInfo p s old.info s.now (p.weigh k v)) j).admitted
-            = (getInfo s j).admitted
+            = (getInfo s j).admitted ∧
+          (j ≠ old.info → (getInfo (refreshInfo p s old.info s.now (p.weigh k v)) j).dirty = true →
+            (getInfo s j).dirty = true)
         unfold refreshInfo
         rw [getInfo_withInfo]
         by_cases e : old.info = j
         · rw [if_pos e, ← e]
-          simp only [hd8, Bool.false_eq_true, if_false, and_self]
-        · rw [if_neg e]; exact ⟨rfl, rfl, rfl⟩
+          simp only [hd8, Bool.false_eq_true, if_false, true_and]
+          exact fun hne => absurd rfl hne
+        · rw [if_neg e]; exact ⟨rfl, rfl, rfl, fun _ hd => hd⟩
       · show (getInfo (refreshInfo p s old.info s.now (p.weigh k v)) old.info).key = k
         unfold refreshInfo
         rw [getInfo_withInfo, if_pos rfl]
@@ -1686,7 +1798,8 @@ theorem insert_t {p : Params} (hq : NoQuirks p) (hsm : SmallSketch p) {s : SStat
         0 (p.weigh k v) rfl (Nat.le_add_right _ 2) ?_ ?_ ?_ ?_ ?_ ?_ rfl rfl rfl
       · intro j hj
         have e : ¬ s.nextId = j := fun e => Nat.lt_irrefl _ (e ▸ hj)
-        simp only [getInfo, AL.get?_put, if_neg e, and_self]
+        simp only [getInfo, AL.get?_put, if_neg e, true_and]
+        exact fun _ hd => hd
       · simp only [getInfo, AL.get?_put, if_true, Option.getD_some]
       · refine ⟨?_, ?_, ?_, ?_⟩ <;> simp only <;> omega
       · intro k' c hk'
@@ -1752,9 +1865,24 @@ theorem TInv.of_eq {p : Params} {s s' : SState} (h : TInv p s [])
 
 theorem init_t (p : Params) : TInv p {} [] := by
   refine ⟨init_inv sketchLaws, qinv_init, ?_⟩
-  refine ⟨?_, ?_, ?_, ?_, ?_, ?_, ?_, ?_, ?_, ?_, ?_, ?_, ?_, rfl⟩ <;> intros <;>
-    first | (rename_i hx; cases hx) | skip
-  all_goals (rename_i hx _; cases hx)
+  have hnil : ∀ k (ve : VE), AL.get? ([] : List (Nat × VE)) k = some ve → False :=
+    fun _ _ hx => by cases hx
+  exact
+    { mapKey := fun k ve hk => (hnil k ve hk).elim
+      mapId := fun k ve hk => (hnil k ve hk).elim
+      idInj := fun k _ ve _ hk => (hnil k ve hk).elim
+      slotInj := fun k _ ve _ hk => (hnil k ve hk).elim
+      nodeKey := fun _ hn => nomatch hn
+      nodeCur := fun _ hn => nomatch hn
+      cur := fun k ve hk => (hnil k ve hk).elim
+      remDead := fun _ _ hq => nomatch hq
+      remBound := fun _ _ hq => nomatch hq
+      upKey := fun _ _ _ _ _ hq => nomatch hq
+      upSlot := fun _ _ _ _ _ hq => nomatch hq
+      probSlot := fun _ hn => nomatch hn
+      woSlot := fun _ hn => nomatch hn
+      dirtyQ := fun k ve hk => (hnil k ve hk).elim
+      wsum := rfl }
 
 /-- Every API call keeps the invariant of the reachable states. -/
 theorem step_t {p : Params} (hq : NoQuirks p) (hsm : SmallSketch p) {s : SState}
@@ -1922,6 +2050,432 @@ theorem stateAfter_t {p : Params} (hq : NoQuirks p) (hsm : SmallSketch p) (h : L
   induction h with
   | nil => intro s hs; exact hs
   | cons op rest ih => intro s hs; exact ih (step_t hq hsm hs op)
+
+/-! ### the capacity after a maintenance run
+
+With nothing pending (`Q = []`) every node of the access-order list belongs to the map's
+entry of its key and no entry is dirty, so every iteration of the LRU eviction loop evicts
+the head of the list: the loop stops when enough weight has been evicted, when the list is
+empty, or when its batch (`SYNC_EVICTION_BATCH_SIZE` iterations) is used up. -/
+
+theorem frame_map_length {s s' : SState} (hf : Frame s s') (hkn : (AL.keys s.map).Nodup) :
+    s'.map.length ≤ s.map.length := by
+  have h1 : (AL.keys s'.map).length ≤ (AL.keys s.map).length := by
+    refine nodup_length_le _ _ (hf.kn hkn) ?_
+    intro k hk
+    have := (AL.get?_isSome_iff s'.map k).mpr hk
+    cases hx : AL.get? s'.map k with
+    | none => rw [hx] at this; cases this
+    | some ve => exact AL.mem_keys_of_get? (hf.mapSub hkn k ve hx)
+  rw [AL.keys_eq_map, AL.keys_eq_map, List.length_map, List.length_map] at h1
+  exact h1
+
+/-- With an empty logical queue the head of the access-order list is evicted. -/
+theorem evictLruLoop_step {p : Params} (hq : NoQuirks p) {s : SState} (h : G p s [])
+    (fuel wte ev : Nat) (hlt : ¬ ev ≥ wte) {n : AoNode} {rest : List AoNode}
+    (hp : s.prob = n :: rest) :
+    ∃ ve, AL.get? s.map n.key = some ve ∧ ve.info = n.info ∧
+      evictLruLoop p (fuel + 1) s wte ev =
+        evictLruLoop p fuel (handleRemove { s with map := AL.erase s.map n.key } ve) wte
+          (ev + (getInfo s ve.info).weight) := by
+  have hd7 : p.q.d7 = false := by rw [hq]
+  have hn : n ∈ s.prob := by rw [hp]; exact List.mem_cons_self
+  obtain ⟨ve, hve, hvi⟩ : ∃ ve, AL.get? s.map n.key = some ve ∧ ve.info = n.info := by
+    rcases h.inv.nodeCur n hn with ⟨k, ve, h1, h2⟩ | ⟨_, _, hq', _⟩
+    · have a1 := h.inv.mapKey k ve h1
+      have a2 := h.inv.nodeKey n hn
+      rw [h2, a2] at a1
+      rw [← a1] at h1
+      exact ⟨ve, h1, h2⟩
+    · cases hq'
+  have hnd : (getInfo s n.info).dirty = false := by
+    cases hx : (getInfo s n.info).dirty with
+    | false => rfl
+    | true =>
+      obtain ⟨_, _, _, _, _, hq', _⟩ := h.inv.dirtyQ n.key ve hve (by rw [hvi]; exact hx)
+      cases hq'
+  have hE : entryOfNode p s n.key n.info = some ve := by
+    unfold entryOfNode
+    rw [hve]
+    dsimp only
+    rw [hd7, Bool.false_or, hvi, if_pos (beq_self_eq_true _)]
+  refine ⟨ve, hve, hvi, ?_⟩
+  rw [evictLruLoop, if_neg hlt]
+  simp only [hp]
+  rw [hnd]
+  simp only [Bool.false_eq_true, if_false]
+  rw [hE]
+  dsimp only
+  rw [hvi, if_pos (beq_self_eq_true _)]
+  dsimp only
+  rw [hvi]
+
+theorem evictLruLoop_progress {p : Params} (hq : NoQuirks p) (wte : Nat) :
+    ∀ (fuel : Nat) (s : SState) (ev : Nat), G p s [] →
+      G p (evictLruLoop p fuel s wte ev) [] ∧
+      (wte ≤ ev + (s.cws - (evictLruLoop p fuel s wte ev).cws) ∨
+        (evictLruLoop p fuel s wte ev).prob = [] ∨
+        (evictLruLoop p fuel s wte ev).map.length + fuel ≤ s.map.length) ∧
+      (evictLruLoop p fuel s wte ev).cws ≤ s.cws ∧
+      (evictLruLoop p fuel s wte ev).map.length ≤ s.map.length := by
+  intro fuel
+  induction fuel with
+  | zero =>
+    intro s ev h
+    exact ⟨h, Or.inr (Or.inr (Nat.le_refl _)), Nat.le_refl _, Nat.le_refl _⟩
+  | succ fuel ih =>
+    intro s ev h
+    by_cases hlt : ev ≥ wte
+    · have : evictLruLoop p (fuel + 1) s wte ev = s := by
+        rw [evictLruLoop, if_pos hlt]
+      rw [this]
+      exact ⟨h, Or.inl (by omega), Nat.le_refl _, Nat.le_refl _⟩
+    · cases hp : s.prob with
+      | nil =>
+        have : evictLruLoop p (fuel + 1) s wte ev = s := by
+          rw [evictLruLoop, if_neg hlt]
+          simp only [hp]
+        rw [this]
+        exact ⟨h, Or.inr (Or.inl hp), Nat.le_refl _, Nat.le_refl _⟩
+      | cons n rest =>
+        obtain ⟨ve, hve, hvi, heq⟩ := evictLruLoop_step hq h fuel wte ev hlt hp
+        rw [heq]
+        have hn : n ∈ s.prob := by rw [hp]; exact List.mem_cons_self
+        have hadm : (getInfo s ve.info).admitted = true := by rw [hvi]; exact h.safe.probAdm hn
+        have hs0 := safe_eraseMap h.safe n.key
+        obtain ⟨r1, _, _, _, _, _, _, _, _, _, r11⟩ := handleRemove_spec hs0 ve
+        obtain ⟨c1, c2⟩ := r11 hadm
+        have hw : (getInfo s ve.info).weight ≤ s.cws := by
+          have : wsumOf { s with map := AL.erase s.map n.key } = wsumOf s := rfl
+          rw [this, ← h.inv.wsum] at c2
+          exact c2
+        have hc1 : (handleRemove { s with map := AL.erase s.map n.key } ve).cws =
+            s.cws - (getInfo s ve.info).weight := c1
+        have hm1 : (handleRemove { s with map := AL.erase s.map n.key } ve).map.length + 1 =
+            s.map.length := by
+          rw [r1]; exact AL.length_erase_of_get? hve
+        obtain ⟨g1, _⟩ := evict_g h hve
+        obtain ⟨i1, i2, i3, i4⟩ := ih _ (ev + (getInfo s ve.info).weight) g1
+        refine ⟨i1, ?_, by omega, by omega⟩
+        rcases i2 with i2 | i2 | i2
+        · exact Or.inl (by omega)
+        · exact Or.inr (Or.inl i2)
+        · exact Or.inr (Or.inr (by omega))
+
+/-- After `Inner::sync` from a reachable state (one thread: nothing is pending once the
+queues are drained) the published weighted size is within the capacity, unless the LRU
+eviction removed a full batch of entries. -/
+theorem syncRun_weight {p : Params} (hq : NoQuirks p) (hsm : SmallSketch p) {s : SState}
+    (h : TInv p s []) {c : Nat} (hcap : p.cap = some c) :
+    (syncRun p s).ws ≤ c ∨
+      (syncRun p s).map.length + Gen.SYNC_EVICTION_BATCH_SIZE ≤ s.map.length := by
+  unfold syncRun
+  dsimp only
+  have h0 : RunInv Sketch.Good { s with cec := s.ec, cws := s.ws } :=
+    ⟨⟨⟨h.top.nodes.toNodesCore.congr (fun _ => rfl) (fun _ => rfl) (fun _ => rfl)
+        (List.Perm.refl _) (List.Perm.refl _) (Nat.le_refl _), h.top.nodes.count⟩, h.top.nofault⟩,
+     ⟨h.top.map.kn, h.top.map.bound⟩, ⟨h.top.sk.sk, h.top.sk.skOff⟩⟩
+  have h1 := syncLoop_g sketchLaws hq hsm [] (Gen.MAX_SYNC_REPEATS + 1) _ h0 h.c
+  have hq1 := (syncLoop_queues p Gen.MAX_SYNC_REPEATS { s with cec := s.ec, cws := s.ws }).1
+  have hf1 := syncLoop_frame hq (Gen.MAX_SYNC_REPEATS + 1) { s with cec := s.ec, cws := s.ws }
+  generalize syncLoop p (Gen.MAX_SYNC_REPEATS + 1) { s with cec := s.ec, cws := s.ws } = s1
+    at h1 hq1 hf1 ⊢
+  rw [hq1, List.nil_append] at h1
+  have hl1 : s1.map.length ≤ s.map.length :=
+    frame_map_length (s := { s with cec := s.ec, cws := s.ws }) hf1 h.top.map.kn
+  have g1 : G p s1 [] := ⟨h1.1.safe, h1.1.map, h1.2⟩
+  have g2 : G p (if (p.hasExpiry || s1.va.isSome) = true then evictExpired p s1 else s1) [] ∧
+      (if (p.hasExpiry || s1.va.isSome) = true then evictExpired p s1 else s1).map.length
+        ≤ s1.map.length := by
+    split
+    · exact ⟨evictExpired_g g1, frame_map_length (evictExpired_frame0 p s1).toFrame g1.map.kn⟩
+    · exact ⟨g1, Nat.le_refl _⟩
+  generalize (if (p.hasExpiry || s1.va.isSome) = true then evictExpired p s1 else s1) = s2
+    at g2 ⊢
+  obtain ⟨g2, hl2⟩ := g2
+  have hwte : weightsToEvict p s2 = s2.cws - c := by
+    unfold weightsToEvict; rw [hcap]
+  generalize weightsToEvict p s2 = W at hwte ⊢
+  by_cases hpos : W > 0
+  · rw [if_pos hpos]
+    obtain ⟨g3, i2, i3, _⟩ := evictLruLoop_progress hq W Gen.SYNC_EVICTION_BATCH_SIZE s2 0 g2
+    show (evictLruLoop p Gen.SYNC_EVICTION_BATCH_SIZE s2 W 0).cws ≤ c ∨
+      (evictLruLoop p Gen.SYNC_EVICTION_BATCH_SIZE s2 W 0).map.length +
+        Gen.SYNC_EVICTION_BATCH_SIZE ≤ s.map.length
+    rcases i2 with i2 | i2 | i2
+    · left; omega
+    · left
+      rw [g3.inv.wsum]
+      unfold wsumOf
+      rw [i2]
+      exact Nat.zero_le _
+    · right; omega
+  · rw [if_neg hpos]
+    left
+    show s2.cws ≤ c
+    rw [hwte] at hpos
+    omega
+
+/-! ### the number of entries is bounded by the number of `insert` calls -/
+
+theorem step_map_length {p : Params} (hq : NoQuirks p) {s : SState} (h : TInv p s [])
+    (op : Op) :
+    (step p s op).1.map.length ≤ s.map.length + (match op with | .ins _ _ => 1 | _ => 0) := by
+  have hkn := h.top.map.kn
+  have hsched : ∀ (s0 : SState) (wop : WOp), (AL.keys s0.map).Nodup →
+      (scheduleWriteOp p 3 s0 wop).map.length ≤ s0.map.length :=
+    fun s0 wop hk => frame_map_length (scheduleWriteOp_frame hq 3 s0 wop) hk
+  have hread : ∀ rop, (recordReadOp p s rop).map.length ≤ s.map.length := by
+    intro rop
+    rw [recordReadOp_enqueues p h.q]
+    show (housekeepR p s).map.length ≤ s.map.length
+    unfold housekeepR
+    split
+    · exact frame_map_length (trySync_frame hq s) hkn
+    · exact Nat.le_refl _
+  unfold step
+  rw [if_neg (by rw [h.top.nofault]; exact Bool.false_ne_true)]
+  dsimp only
+  have key : ∀ (N : Nat) (r : SState × Obs), r.1.map.length ≤ N →
+      (match r.1.fault with | some f => (r.1, Obs.panic f) | none => r).1.map.length ≤ N := by
+    intro N r hr
+    split <;> exact hr
+  apply key
+  cases op with
+  | ins k v =>
+    show (insert p s k v).map.length ≤ s.map.length + 1
+    unfold insert
+    dsimp only
+    split
+    · rename_i old hg
+      refine Nat.le_trans (hsched _ _ (AL.nodup_put k _ hkn)) ?_
+      show (AL.put s.map k _).length ≤ _
+      rw [AL.length_put_of_some _ hg]
+      exact Nat.le_succ _
+    · rename_i hg
+      refine Nat.le_trans (hsched _ _ (AL.nodup_put k _ hkn)) ?_
+      show (AL.put s.map k _).length ≤ _
+      rw [AL.length_put_of_none _ hg]
+      exact Nat.le_refl _
+  | get k =>
+    show (get p s k).1.map.length ≤ s.map.length + 0
+    unfold get
+    dsimp only
+    split
+    · exact hread _
+    · split
+      · exact hread _
+      · exact hread _
+  | has k => exact Nat.le_refl _
+  | iter => exact Nat.le_refl _
+  | inv k =>
+    show (invalidate p s k).map.length ≤ s.map.length + 0
+    unfold invalidate
+    split
+    · exact Nat.le_refl _
+    · rename_i ve hg
+      dsimp only
+      refine Nat.le_trans (hsched _ _ (AL.nodup_erase k hkn)) ?_
+      show (AL.erase s.map k).length ≤ _
+      have := AL.length_erase_of_get? hg
+      omega
+  | invAll => exact Nat.le_refl _
+  | invIf pr => exact Nat.le_refl _
+  | sync => exact frame_map_length (syncRun_frame hq s) hkn
+  | adv d => exact Nat.le_refl _
+  | snap => exact Nat.le_refl _
+  | freq k => exact Nat.le_refl _
+
+theorem step_snap_eq {p : Params} {s : SState} (hf : s.fault = none) :
+    step p s .snap = (s, .snap (snapshot p s)) := by
+  unfold step
+  rw [if_neg (by rw [hf]; exact Bool.false_ne_true)]
+  dsimp only
+  rw [hf]
+
+theorem step_sync_eq {p : Params} {s : SState} (hf : s.fault = none)
+    (hf' : (syncRun p s).fault = none) : step p s .sync = (syncRun p s, .ok) := by
+  unfold step
+  rw [if_neg (by rw [hf]; exact Bool.false_ne_true)]
+  dsimp only
+  rw [hf']
+
+theorem run_cons_inv {p : Params} {s : SState} {h : List Op} {x : Op × Obs}
+    {t : List (Op × Obs)} (e : run p s h = x :: t) :
+    ∃ op h', h = op :: h' ∧ x = (op, (step p s op).2) ∧ t = run p (step p s op).1 h' := by
+  cases h with
+  | nil => cases e
+  | cons op h' =>
+    have hrun : run p s (op :: h') = (op, (step p s op).2) :: run p (step p s op).1 h' := rfl
+    rw [hrun] at e
+    injection e with e1 e2
+    exact ⟨op, h', rfl, e1.symm, e2.symm⟩
+
+/-! ### the snapshot of a state -/
+
+theorem snapshot_entries_length (p : Params) (s : SState) :
+    (snapshot p s).entries.length = s.map.length := by
+  simp only [snapshot]
+  rw [length_sortBy, List.length_map]
+
+theorem snapshot_sum (p : Params) (s : SState) (f : EntryView → Nat) :
+    ((snapshot p s).entries.map f).sum = (s.map.map fun kv => f (entryView s kv)).sum := by
+  simp only [snapshot]
+  rw [sum_map_sortBy, List.map_map]
+  rfl
+
+end Counters
+end Sync
+
+/-! ### the corrected capacity oracle of the concurrent cache -/
+
+namespace Spec
+
+/-- `boundC04Sync'` with the number `n` of `insert` calls seen so far (an upper bound of the
+number of entries the map holds). -/
+def boundC04SyncGo (cap : Nat) : Nat → Trace → Bool
+  | n, (.snap, .snap mid) :: (.sync, .ok) :: (.snap, .snap after) :: rest =>
+    decide (mid.entries.length ≤ mid.ec + mid.wq + 1) &&
+    (!(after.rq == 0 && after.wq == 0) || decide (snapWeight after ≤ cap) ||
+      decide (after.entries.length + Gen.SYNC_EVICTION_BATCH_SIZE ≤ mid.entries.length)) &&
+    boundC04SyncGo cap n ((.snap, .snap after) :: rest)
+  | n, (.sync, .ok) :: (.snap, .snap after) :: rest =>
+    (!(after.rq == 0 && after.wq == 0) || decide (snapWeight after ≤ cap) ||
+      decide (after.entries.length + Gen.SYNC_EVICTION_BATCH_SIZE ≤ n)) &&
+    boundC04SyncGo cap n ((.snap, .snap after) :: rest)
+  | n, (.snap, .snap sn) :: rest =>
+    decide (sn.entries.length ≤ sn.ec + sn.wq + 1) && boundC04SyncGo cap n rest
+  | n, (.ins _ _, _) :: rest => boundC04SyncGo cap (n + 1) rest
+  | n, _ :: rest => boundC04SyncGo cap n rest
+  | _, [] => true
+
+/-- Concurrent cache, corrected: at every snapshot the map holds at most
+`entry_count + |write queue| + 1` entries; at every snapshot taken right after `sync` with
+both queues empty the residents weigh at most `cap`, unless that maintenance run has
+removed a full eviction batch (`SYNC_EVICTION_BATCH_SIZE` entries): compared with the snapshot
+taken right before the `sync` if there is one, otherwise with the number of `insert` calls so
+far (an upper bound of the number of entries).  Excess can only come from updates that make an
+entry heavier; each maintenance run works it off one batch at a time. -/
+def boundC04Sync' (cap : Nat) (t : Trace) : Bool := boundC04SyncGo cap 0 t
+
+def oracleC04' (kind : Kind) (cap : Option Nat) (t : Trace) : Bool :=
+  match cap, kind with
+  | none, _ => true
+  | some c, .unsync => boundC04 c t
+  | some c, .sync => boundC04Sync' c t
+
+end Spec
+
+namespace Sync
+namespace Counters
+
+open Nodes
+
+theorem snapshot_count {p : Params} {s : SState} (h : TInv p s []) :
+    decide ((snapshot p s).entries.length ≤ (snapshot p s).ec + (snapshot p s).wq + 1) = true := by
+  rw [decide_eq_true_eq, snapshot_entries_length]
+  exact Nat.le_succ_of_le (map_length_le h)
+
+/-- The weight clause of the corrected oracle at the snapshot that follows `sync`. -/
+theorem snapshot_weight_after_sync {p : Params} (hq : NoQuirks p) (hsm : SmallSketch p)
+    {s : SState} (h : TInv p s []) {c : Nat} (hcap : p.cap = some c) (N : Nat)
+    (hN : s.map.length ≤ N) :
+    (!((snapshot p (syncRun p s)).rq == 0 && (snapshot p (syncRun p s)).wq == 0) ||
+      decide (Spec.snapWeight (snapshot p (syncRun p s)) ≤ c) ||
+      decide ((snapshot p (syncRun p s)).entries.length + Gen.SYNC_EVICTION_BATCH_SIZE ≤ N))
+      = true := by
+  have h' := sync_t hq hsm h
+  obtain ⟨_, q2, _, _, _⟩ := quiescent h' (syncRun_writeQ p s)
+  have hw : Spec.snapWeight (snapshot p (syncRun p s)) = (syncRun p s).ws := by
+    unfold Spec.snapWeight
+    rw [snapshot_sum, q2]
+    rfl
+  rw [hw, snapshot_entries_length]
+  rcases syncRun_weight hq hsm h hcap with h1 | h1
+  · rw [decide_eq_true h1]; simp
+  · rw [decide_eq_true (Nat.le_trans h1 hN)]; simp
+
+/-- The corrected capacity oracle accepts every run from a reachable state; `n` bounds the
+number of entries of the map. -/
+theorem boundC04SyncGo_run {p : Params} (hq : NoQuirks p) (hsm : SmallSketch p) {c : Nat}
+    (hcap : p.cap = some c) : ∀ (n : Nat) (t : Spec.Trace) (s : SState) (h : List Op),
+      TInv p s [] → s.map.length ≤ n → run p s h = t → Spec.boundC04SyncGo c n t = true := by
+  intro n t
+  fun_induction Spec.boundC04SyncGo c n t with
+  | case1 n mid after tail ih =>
+    intro s h hs hn e
+    obtain ⟨op1, h1, rfl, e1, e1'⟩ := run_cons_inv e
+    injection e1 with a1 b1
+    subst a1
+    rw [step_snap_eq hs.top.nofault] at b1 e1'
+    dsimp only at b1 e1'
+    injection b1 with b1
+    subst b1
+    obtain ⟨op2, h2, rfl, e2, e2'⟩ := run_cons_inv e1'.symm
+    injection e2 with a2 _
+    subst a2
+    have hs' := sync_t hq hsm hs
+    rw [step_sync_eq hs.top.nofault hs'.top.nofault] at e2'
+    dsimp only at e2'
+    obtain ⟨op3, h3, rfl, e3, _⟩ := run_cons_inv e2'.symm
+    injection e3 with a3 b3
+    subst a3
+    rw [step_snap_eq hs'.top.nofault] at b3
+    dsimp only at b3
+    injection b3 with b3
+    subst b3
+    have hlen : (syncRun p s).map.length ≤ n :=
+      Nat.le_trans (frame_map_length (syncRun_frame hq s) hs.top.map.kn) hn
+    rw [Bool.and_eq_true, Bool.and_eq_true]
+    refine ⟨⟨snapshot_count hs, ?_⟩, ih _ _ hs' hlen e2'.symm⟩
+    rw [snapshot_entries_length p s]
+    exact snapshot_weight_after_sync hq hsm hs hcap _ (Nat.le_refl _)
+  | case2 n after tail ih =>
+    intro s h hs hn e
+    obtain ⟨op2, h2, rfl, e2, e2'⟩ := run_cons_inv e
+    injection e2 with a2 _
+    subst a2
+    have hs' := sync_t hq hsm hs
+    rw [step_sync_eq hs.top.nofault hs'.top.nofault] at e2'
+    dsimp only at e2'
+    obtain ⟨op3, h3, rfl, e3, _⟩ := run_cons_inv e2'.symm
+    injection e3 with a3 b3
+    subst a3
+    rw [step_snap_eq hs'.top.nofault] at b3
+    dsimp only at b3
+    injection b3 with b3
+    subst b3
+    have hlen : (syncRun p s).map.length ≤ n :=
+      Nat.le_trans (frame_map_length (syncRun_frame hq s) hs.top.map.kn) hn
+    rw [Bool.and_eq_true]
+    exact ⟨snapshot_weight_after_sync hq hsm hs hcap n hn, ih _ _ hs' hlen e2'.symm⟩
+  | case3 n sn rest _ ih =>
+    intro s h hs hn e
+    obtain ⟨op1, h1, rfl, e1, e1'⟩ := run_cons_inv e
+    injection e1 with a1 b1
+    subst a1
+    rw [step_snap_eq hs.top.nofault] at b1 e1'
+    dsimp only at b1 e1'
+    injection b1 with b1
+    subst b1
+    rw [Bool.and_eq_true]
+    exact ⟨snapshot_count hs, ih _ _ hs hn e1'.symm⟩
+  | case4 n k v o rest ih =>
+    intro s h hs hn e
+    obtain ⟨op1, h1, rfl, e1, e1'⟩ := run_cons_inv e
+    injection e1 with a1 _
+    subst a1
+    refine ih _ _ (step_t hq hsm hs _) ?_ e1'.symm
+    exact Nat.le_trans (step_map_length hq hs (.ins k v)) (Nat.succ_le_succ hn)
+  | case5 n head rest _ _ _ hins ih =>
+    intro s h hs hn e
+    obtain ⟨op1, h1, rfl, e1, e1'⟩ := run_cons_inv e
+    refine ih _ _ (step_t hq hsm hs _) ?_ e1'.symm
+    have := step_map_length hq hs op1
+    cases op1 with
+    | ins k v => exact absurd e1 (hins k v _)
+    | _ => exact Nat.le_trans this hn
+  | case6 => intros; rfl
 
 end Counters
 end Sync
